@@ -135,6 +135,7 @@ func cmdCheck(args []string) int {
 		}
 	}
 	ts := time.Now()
+	noRetry = o.scratch
 	dischargeAll(all, o.tier, o.timeout, o.workers)
 	solveS := time.Since(ts).Seconds()
 
@@ -149,9 +150,18 @@ func cmdCheck(args []string) int {
 	groups := map[string]*group{}
 	var order []string
 	vacuity := []string{}
+	infeasible := []string{}
+	pathCovers := 0
 	var solverMs int64
 	for _, ob := range all {
 		solverMs += ob.Ms
+		if ob.Expect == "pathcover" {
+			pathCovers++
+			if ob.Status == "unsat" {
+				infeasible = append(infeasible, shortFuncKey(ob.Func)+" path "+ob.Path+" (return at "+ob.Site+")")
+			}
+			continue
+		}
 		if ob.Expect == "cover" {
 			if ob.Status == "unsat" {
 				vacuity = append(vacuity, ob.Name())
@@ -314,7 +324,7 @@ func cmdCheck(args []string) int {
 		"solve_wall_s":             solveS,
 		"per_obligation":           summaries,
 		"samples":                  samples,
-		"vacuity_checks":           map[string]any{"requires_satisfiable_failed": vacuity, "obligations_nonzero": total > 0},
+		"vacuity_checks":           map[string]any{"requires_satisfiable_failed": vacuity, "obligations_nonzero": total > 0, "path_reachability_queries": pathCovers, "infeasible_paths": infeasible},
 		"known_findings_open":      openFindings,
 		"bounded_standins":         standins,
 		"engine_errors":            engineErrs,
